@@ -47,8 +47,36 @@ pub struct RunOut {
     pub peak: u64,
 }
 
+thread_local! {
+    static RETRIES: std::cell::Cell<u32> = const { std::cell::Cell::new(0) };
+}
+
+/// `FUEL` steps first; a search that needs more (legitimately: nested `.*` under a counted loop is
+/// polynomial of high degree) is run again with `FUEL_RETRY`, at most 40 times per process, so that
+/// "one side finished, the other hit the budget" is not mistaken for a difference. A result that is
+/// still "fuel" is never compared (see `differ`).
 pub fn run_exec(re: &Regex, exec: Exec, hay: &str, start: usize, limit: usize) -> RunOut {
-    regress::verif::fuel::reset(FUEL);
+    let r = run_exec_budget(re, exec, hay, start, limit, FUEL);
+    if r.text == "fuel" && RETRIES.with(|c| c.get()) < 40 {
+        RETRIES.with(|c| c.set(c.get() + 1));
+        return run_exec_budget(re, exec, hay, start, limit, FUEL_RETRY);
+    }
+    r
+}
+
+pub const FUEL_RETRY: u64 = 300_000_000;
+
+/// two results differ, and both are results (not an exhausted budget)
+pub fn differ(a: &str, b: &str) -> bool {
+    a != b && a != "fuel" && b != "fuel"
+}
+
+/// A pattern may legitimately need more than `FUEL` steps (nested `.*` under a counted loop is
+/// polynomial of high degree): before calling that non-termination, run it again with this budget.
+pub const FUEL_BIG: u64 = 2_000_000_000;
+
+pub fn run_exec_budget(re: &Regex, exec: Exec, hay: &str, start: usize, limit: usize, budget: u64) -> RunOut {
+    regress::verif::fuel::reset(budget);
     let r = guarded(std::panic::AssertUnwindSafe(|| {
         let (mut ms, _) = find_all(re, exec, hay, start, 0);
         ms.truncate(limit);
@@ -169,18 +197,18 @@ pub fn engine(rep: &mut Report, focus: &str, n: usize, seed: u64, thorough: bool
                     }
                     "C02" => {
                         let pk = run_exec(&c.opt, Exec::Pk, &hay, start, 64);
-                        if bt.text != pk.text {
+                        if differ(&bt.text, &pk.text) {
                             rep.violation("impl-vs-impl:C02", format!("backtracking [{}] vs PikeVM [{}]", bt.text, pk.text), label.clone());
                         }
                         let btn = run_exec(&c.noopt, Exec::Bt, &hay, start, 64);
                         let pkn = run_exec(&c.noopt, Exec::Pk, &hay, start, 64);
-                        if btn.text != pkn.text {
+                        if differ(&btn.text, &pkn.text) {
                             rep.violation("impl-vs-impl:C02", format!("(no_opt) backtracking [{}] vs PikeVM [{}]", btn.text, pkn.text), label.clone());
                         }
                         if is_ascii(h) {
                             let a = run_exec(&c.opt, Exec::BtAscii, &hay, start, 64);
                             let b = run_exec(&c.opt, Exec::PkAscii, &hay, start, 64);
-                            if a.text != b.text {
+                            if differ(&a.text, &b.text) {
                                 rep.violation("impl-vs-impl:C02", format!("(ascii) backtracking [{}] vs PikeVM [{}]", a.text, b.text), label.clone());
                             }
                             rep.count("ascii-haystack");
@@ -190,12 +218,12 @@ pub fn engine(rep: &mut Report, focus: &str, n: usize, seed: u64, thorough: bool
                     }
                     "C03" => {
                         let btn = run_exec(&c.noopt, Exec::Bt, &hay, start, 64);
-                        if bt.text != btn.text {
+                        if differ(&bt.text, &btn.text) {
                             rep.violation("impl-vs-impl:C03", format!("optimized [{}] vs no_opt [{}]", bt.text, btn.text), label.clone());
                         }
                         let pk = run_exec(&c.opt, Exec::Pk, &hay, start, 64);
                         let pkn = run_exec(&c.noopt, Exec::Pk, &hay, start, 64);
-                        if pk.text != pkn.text {
+                        if differ(&pk.text, &pkn.text) {
                             rep.violation("impl-vs-impl:C03", format!("(PikeVM) optimized [{}] vs no_opt [{}]", pk.text, pkn.text), label.clone());
                         }
                         if prog != prog_noopt {
@@ -207,20 +235,25 @@ pub fn engine(rep: &mut Report, focus: &str, n: usize, seed: u64, thorough: bool
                         let mut arb = c.opt.clone();
                         regress::verif::set_start_pred_arbitrary(&mut arb);
                         let a = run_exec(&arb, Exec::Bt, &hay, start, 64);
-                        if bt.text != a.text {
+                        if differ(&bt.text, &a.text) {
                             rep.violation("impl-vs-impl:C04", format!("with prefilter ({}) [{}] vs Arbitrary [{}]", pred, bt.text, a.text), label.clone());
                         }
                         let pk = run_exec(&c.opt, Exec::Pk, &hay, start, 64);
-                        if bt.text != pk.text {
+                        if differ(&bt.text, &pk.text) {
                             rep.violation("impl-vs-impl:C04", format!("backtracking with prefilter ({}) [{}] vs PikeVM [{}]", pred, bt.text, pk.text), label.clone());
                         }
                         rep.tie(format!("runprog bt utf8 {} {} {}", prog, ast::bytes_hex(hay.as_bytes()), start), format!("ok {} {} {}", bt.steps, bt.peak, bt.text).trim_end().to_string());
                     }
                     "C05" => {
-                        let pk = run_exec(&c.opt, Exec::Pk, &hay, start, 64);
-                        for (name, r) in [("backtracking", &bt), ("PikeVM", &pk)] {
+                        let mut bt = bt;
+                        let mut pk = run_exec(&c.opt, Exec::Pk, &hay, start, 64);
+                        for (name, exec, r) in [("backtracking", Exec::Bt, &mut bt), ("PikeVM", Exec::Pk, &mut pk)] {
                             if r.text == "fuel" {
-                                rep.violation("impl-vs-spec:C05", format!("{} did not finish within {} steps", name, FUEL), label.clone());
+                                rep.count("needed-more-than-3M-steps");
+                                *r = run_exec_budget(&c.opt, exec, &hay, start, 64, FUEL_BIG);
+                                if r.text == "fuel" {
+                                    rep.violation("impl-vs-spec:C05", format!("{} did not finish within {} steps", name, FUEL_BIG), label.clone());
+                                }
                             }
                         }
                         rep.count_n("steps:bt", bt.steps);
@@ -244,7 +277,7 @@ pub fn engine(rep: &mut Report, focus: &str, n: usize, seed: u64, thorough: bool
                                 for re in [&c.opt, &c.noopt] {
                                     let x = run_exec(re, u, &hay, start, 64);
                                     let y = run_exec(re, a, &hay, start, 64);
-                                    if x.text != y.text {
+                                    if differ(&x.text, &y.text) {
                                         rep.violation("impl-vs-impl:C13", format!("{} utf8 [{}] vs ascii [{}]", u.name(), x.text, y.text), label.clone());
                                     }
                                 }
@@ -327,10 +360,10 @@ fn look_scope(rep: &mut Report, rng: &mut Rng, focus: &str, thorough: bool) {
                                         let pk = run_exec(&opt, Exec::Pk, h, 0, 64);
                                         let btn = run_exec(&noopt, Exec::Bt, h, 0, 64);
                                         rep.case(&label, !bt.text.is_empty());
-                                        if bt.text != pk.text {
+                                        if differ(&bt.text, &pk.text) {
                                             rep.violation("impl-vs-impl:C02", format!("backtracking [{}] vs PikeVM [{}]", bt.text, pk.text), label.clone());
                                         }
-                                        if bt.text != btn.text {
+                                        if differ(&bt.text, &btn.text) {
                                             rep.violation("impl-vs-impl:C03", format!("optimized [{}] vs no_opt [{}]", bt.text, btn.text), label.clone());
                                         }
                                         if focus == "C02" && rng.chance(1, 64) {
@@ -467,10 +500,8 @@ pub fn c19(rep: &mut Report, n: usize, seed: u64, thorough: bool) {
                             let qi = k % queries.len();
                             let r = if k % 3 == 0 { cl } else { re };
                             let exec = if k % 5 == 0 { Exec::Pk } else { Exec::Bt };
-                            let m = find_all(r, exec, &queries[qi].0, queries[qi].1, 0).0;
-                            let mut m = m;
-                            m.truncate(64);
-                            out.push((qi, fmt_matches(&m)));
+                            // step budget per thread (the counter is thread-local): an expensive query must not stall the run
+                            out.push((qi, run_exec_budget(r, exec, &queries[qi].0, queries[qi].1, 64, FUEL).text));
                         }
                     }
                     out
@@ -480,7 +511,7 @@ pub fn c19(rep: &mut Report, n: usize, seed: u64, thorough: bool) {
         });
         for per in results {
             for (qi, r) in per {
-                if r != seq[qi] && seq[qi] != "fuel" {
+                if differ(&r, &seq[qi]) {
                     rep.violation("impl-vs-impl:C19", format!("concurrent result [{}] differs from sequential [{}]", r, seq[qi]), format!("/{}/{} {:?}", c.pat, c.flags.to_string(), queries[qi]));
                 }
             }
